@@ -17,6 +17,6 @@ void icb_join_all(void);
 void icb_report_digest(uint64_t d);
 void icb_fail(int verdict, const char *msg);
 int icb_self(void);
-extern int icb_nested_size;
+extern int icb_nested_size, icb_thread_limit;
 extern int icb_team_size, icb_alloc_points, icb_max_deviations, icb_free_sections; extern unsigned icb_dev_kinds;
 #endif
